@@ -82,6 +82,10 @@ def _random_order(rng, m=None, allow_Kgtm=True, families=None):
         if f == "randomK" and allow_Kgtm:
             K = m + int(rng.integers(1, 4))
             W = G.random_cone(rng, m, K)
+            if rng.random() < 0.2:  # a redundant facet: a positive combination of two others (same cone, one more row)
+                W[-1] = W[0] * rng.uniform(0.2, 1) + W[1] * rng.uniform(0.2, 1)
+                W[-1] /= np.linalg.norm(W[-1])
+                return f"random{K}x{m}-redundant", make_order("W", W=W)
             return f"random{K}x{m}", make_order("W", W=W)
     return f"orthant{m}", make_order("orthant", m=m)
 
